@@ -738,33 +738,36 @@ def tables_stream(ctx):
 # ----------------------------------------------------------------------------------------- known findings / corpus
 
 
-def replay_entry(ctx, e: Dict[str, Any]):
-    """A non-empty reason: the listed input fails (now); "": it passes; None: cannot be replayed."""
-    inp = e.get("input", {})
-    if "case" in inp:
-        recs = judge_jobs(ctx, "findings", [inp["case"]], report=False)
-        if recs[0]["bad"]:
-            return None
-        return "" if recs[0]["ok"] else (str(recs[0]["spec"].get("why")) or "specification false")
-    if "metadata" in inp:
-        md = inp["metadata"]
-        b = next((k for k, v in MDTYPE.items() if v == md.get("metadata_type")), "atlas")
-        a = ctx.driver(DRIVER, [{"op": "validate", "backend": b, "md": md_json(md)}])[0]
-        if "bad" in a:
-            return None
-        im = impl_validate(md)
-        return "" if a["valid"] == ("rejected" not in im) else f"well formed={a['valid']}, process_metadata: {im.get('rejected', 'accepted')}"
-    return None
+def replay_entries(ctx, entries: List[Dict[str, Any]]) -> List[Optional[str]]:
+    """Per entry: a non-empty reason if the listed input fails now, "" if it passes, None if it cannot
+    be replayed.  One driver call for all job inputs, one for all metadata inputs."""
+    res: List[Optional[str]] = [None] * len(entries)
+    job_ix = [i for i, e in enumerate(entries) if "case" in e.get("input", {})]
+    if job_ix:
+        recs = judge_jobs(ctx, "findings", [entries[i]["input"]["case"] for i in job_ix], report=False)
+        for i, r in zip(job_ix, recs):
+            res[i] = None if r["bad"] else ("" if r["ok"] else (str(r["spec"].get("why")) or "specification false"))
+    md_ix = [i for i, e in enumerate(entries) if "metadata" in e.get("input", {}) and "case" not in e.get("input", {})]
+    if md_ix:
+        mds = [entries[i]["input"]["metadata"] for i in md_ix]
+        bs = [next((k for k, v in MDTYPE.items() if v == md.get("metadata_type")), "atlas") for md in mds]
+        ans = ctx.driver(DRIVER, [{"op": "validate", "backend": b, "md": md_json(md)} for b, md in zip(bs, mds)])
+        for i, md, a in zip(md_ix, mds, ans):
+            if "bad" in a:
+                continue
+            im = impl_validate(md)
+            res[i] = "" if a["valid"] == ("rejected" not in im) else f"well formed={a['valid']}, process_metadata: {im.get('rejected', 'accepted')}"
+    return res
 
 
 def findings_stream(ctx):
-    for e in ctx.known_entries("known"):
-        r = replay_entry(ctx, e)
+    known, fixed = ctx.known_entries("known"), ctx.known_entries("fixed")
+    res = replay_entries(ctx, known + fixed)
+    for e, r in zip(known, res[: len(known)]):
         ctx.count("stream:known-findings")
         if r:
             ctx.violation(key=e["key"], what=e["what"], case=e.get("input"))
-    for e in ctx.known_entries("fixed"):
-        r = replay_entry(ctx, e)
+    for e, r in zip(fixed, res[len(known) :]):
         ctx.count("stream:fixed-findings")
         if r:
             ctx.violation(
@@ -810,9 +813,9 @@ def run(ctx):
     tables_stream(ctx)
     tablechecks_stream(ctx)
     validate_stream(ctx)
-    subst_stream(ctx, 1500 if ctx.tier == "quick" else 12000)
+    subst_stream(ctx, 1000 if ctx.tier == "quick" else 12000)
     all_recs = judge_jobs(ctx, "systematic", systematic_cases(ctx))
-    n = 700 if ctx.tier == "quick" else 6000
+    n = 500 if ctx.tier == "quick" else 6000
     cases = []
     for i in range(n):
         err = ctx.rng.choice(ERRORS) if ctx.rng.random() < 0.22 else None
@@ -908,7 +911,7 @@ def search(ctx, broken):
         "key": case_key(case),
         "what": "the generated job violates the collection-retrieval specification: " + str(r["spec"].get("why")),
         "case": case,
-        "observed": {"query": query_src(case), "implementation": r["impl"]},
+        "observed": {"query": query_src(case), "implementation": {k: v for k, v in r["impl"].items() if k != "_files"}},
         "replay_how": "./check C06 --replay <this file>",
     }
 
@@ -946,7 +949,7 @@ def replay(ctx, rep) -> int:
         return 1
     r = judge_jobs(ctx, "replay", [case], report=False)[0]
     print("query:", query_src(case))
-    print("implementation:", json.dumps(r["impl"], indent=1)[:3000])
+    print("implementation:", json.dumps({k: v for k, v in r["impl"].items() if k != "_files"}, indent=1)[:3000])
     print("spec:", r["spec"].get("holds"), r["spec"].get("why"))
     return 0 if r["ok"] and not r["bad"] else 1
 
